@@ -171,6 +171,12 @@ def run(tier):
     # look-up tables of every shape Vela creates (8-bit, 16-bit interpolating, the 32-bit softmax exponent table) and
     # their slot bookkeeping: always present, whatever the shared plan drew
     jobs += compiles.plan(LUT_FAMS, 24 if tier == "quick" else 400, vlib.seed(), tag="c03lut", capture=True)
+    # 16-bit producers, a type-narrowing QUANTIZE and 8-bit consumers in one cascade (rolling buffers whose element size
+    # differs between producer and consumer), at the SRAM budgets that make the scheduler cascade them
+    for rep in range(6 if tier == "quick" else 120):
+        jobs.append({"family": "narrowing_chain", "seed": "c03n-%d-%d" % (vlib.seed(), rep),
+                     "args": ["--accelerator-config", ["ethos-u55-128", "ethos-u55-256", "ethos-u65-256"][rep % 3], "--arena-cache-size",
+                              str([80000, 90000, 75000, 85000, 100000, 60000][rep % 6])], "capture": True})
     results = compiles.run_all(jobs, timeout=900)
     cases, meta = [], []
     unsupported = collections.Counter()
